@@ -425,6 +425,11 @@ class Fn(object):
         f = e.func
         src = ast.unparse(f)
         # "...".format(...): evaluated for its effects, the text is not modelled
+        if isinstance(f, ast.Attribute) and f.attr == "format" and isinstance(f.value, ast.Constant) \
+                and f.value.value in self.spec.get("formats", {}) and len(e.args) == 1 and not e.keywords:
+            # a template whose result the method uses: configured per method
+            b, a = self.expr(e.args[0])
+            return b, "(%s %s)" % (self.spec["formats"][f.value.value], a)
         if isinstance(f, ast.Attribute) and f.attr == "format" and isinstance(f.value, (ast.Constant, ast.Name)):
             bs = []
             for x in e.args:
@@ -798,6 +803,9 @@ class Fn(object):
         key = ast.unparse(test)
         if key in self.assume:
             return then_text if self.assume[key] else else_text
+        if key in self.spec.get("tests", {}):
+            # a test on the class hierarchy, written out for the classes at hand by the configuration
+            return "if %s then\n%s\nelse\n%s" % (self.spec["tests"][key], then_text, else_text)
         nt = self.none_test(test)
         if nt:
             x = cname(nt[0])
